@@ -794,8 +794,10 @@ class Parser:
                 self.err("cfg(test) on statements is not supported")
             if self.at_kw('let'):
                 self.p += 1
-                if self.at_kw('mut'):
-                    self.err("`let mut` is not supported")
+                is_mut = False
+                if self.at_kw('mut') and self.peek().kind == 'ident' and self.peek(2).val in (':', '=', ';'):
+                    self.p += 1
+                    is_mut = True
                 pat = self.pattern()
                 ty = None
                 if self.eat(':'):
@@ -806,7 +808,7 @@ class Parser:
                 if self.at_kw('else'):
                     self.err("let-else is not supported")
                 self.expect(';')
-                stmts.append(Node('let', sl, pat=pat, ty=ty, value=e))
+                stmts.append(Node('let', sl, pat=pat, ty=ty, value=e, is_mut=is_mut))
                 continue
             if self.t.kind == 'ident' and self.t.val in ('fn', 'struct', 'enum', 'impl', 'use', 'const', 'static', 'mod', 'trait', 'type') \
                     and not (self.t.val == 'const' and self.peek().val == '{'):
@@ -852,7 +854,11 @@ class Parser:
             rhs = self.assign()
             return Node('assign', line, op=op, lhs=lhs, rhs=rhs)
         if self.at('..') or self.at('..='):
-            self.err("range expressions are not supported")
+            incl = self.at('..=')
+            line = self.t.line
+            self.p += 1
+            hi = self.binary(0)
+            return Node('range', line, lo=lhs, hi=hi, inclusive=incl)
         return lhs
 
     def binary(self, level):
